@@ -8,6 +8,7 @@ Oracle 1 (call tree): seams record the effective arguments of every get_next_imf
 get_padded_extrema call, in the parent and in every worker; each must carry every supplied option.
 Oracle 2 (output): the variant's output equals a pipeline assembled in the harness from the stage functions.
 """
+import copy
 import functools
 import inspect
 import itertools
@@ -51,7 +52,7 @@ OPTSETS = [
 POOLED_SETS = (2, 7, 8, 10, 17)
 VARIANTS = ('sift', 'mask_sift', 'ensemble_sift', 'complete_ensemble_sift', 'second_sift', 'second_mask',
             'ensemble_sift:flip', 'complete_ensemble_sift:flip')
-ROUTES = ('kwargs', 'config', 'get_func')
+ROUTES = ('kwargs', 'config', 'get_func', 'config-nested')
 SIGNALS = [('tone', 64, 2, 'lin', 'none'), ('tone', 32, 3, 'none', 'am'), ('noise', 64, 0, 'none', 'none')]
 CAP = 3
 
@@ -166,7 +167,7 @@ def pipe_sift(x, imf_opts, envelope_opts, extrema_opts, cap=None, sift_thresh=1e
     cols = []
     while True:
         r = X - (np.sum(cols, axis=0) if cols else 0)
-        imf, flag = gni(r, envelope_opts=envelope_opts, extrema_opts=extrema_opts, **io)
+        imf, flag = gni(r, envelope_opts=copy.deepcopy(envelope_opts), extrema_opts=copy.deepcopy(extrema_opts), **copy.deepcopy(io))
         cols.append(np.asarray(imf))
         if not flag or (cap is not None and len(cols) == cap) or np.abs(imf).sum() < sift_thresh:
             break
@@ -181,7 +182,8 @@ def pipe_mask_imf(r, z, amp, nph, imf_opts, envelope_opts, extrema_opts):
     flags = []
     for p in range(nph):
         m = (amp * np.cos(2 * np.pi * z * t + 2 * np.pi * p / nph))[:, None]
-        imf, flag = gni(r + m, envelope_opts=envelope_opts, extrema_opts=extrema_opts, **(imf_opts or {}))
+        imf, flag = gni(r + m, envelope_opts=copy.deepcopy(envelope_opts), extrema_opts=copy.deepcopy(extrema_opts),
+                        **copy.deepcopy(imf_opts or {}))
         acc += imf - m
         flags.append(flag)
     return acc / nph, any(flags)
@@ -244,7 +246,7 @@ def pipe_ceemd(x, E, sg, o, seed_state, cap, mode='single'):
 def call_variant(v, x, o, route, nproc):
     """Run the real variant with options delivered through `route`; returns its output."""
     import emd.sift as S
-    io, eo, xo = o
+    io, eo, xo = o      # the caller hands in its own deep copy and compares it with the table afterwards
     if v.startswith('second'):
         first = _orig['sift'](x.copy(), max_imfs=2)
         IA = np.abs(first) + 0.1
@@ -273,7 +275,17 @@ def call_variant(v, x, o, route, nproc):
         cfg[k_] = val
     for name, d in (('imf_opts', io), ('envelope_opts', eo), ('extrema_opts', xo)):
         for k_, val in (d or {}).items():
-            if isinstance(val, dict) and route == 'get_func':
+            if route == 'config-nested':
+                # the documented idiom: config['extrema_opts']['parabolic_extrema'] = True (nested indexing)
+                if isinstance(val, dict):
+                    for k3 in list(cfg[name][k_].keys()):
+                        if k3 not in val:
+                            del cfg[name][k_][k3]
+                    for k3, v3 in val.items():
+                        cfg[name][k_][k3] = v3
+                else:
+                    cfg[name][k_] = val
+            elif isinstance(val, dict) and route == 'get_func':
                 # three-level key paths: edit the nested pad-option dictionary entry by entry, in place
                 for k3 in list(cfg['%s/%s' % (name, k_)].keys()):
                     if k3 not in val:
@@ -282,17 +294,27 @@ def call_variant(v, x, o, route, nproc):
                     cfg['%s/%s/%s' % (name, k_, k3)] = v3
             else:
                 cfg['%s/%s' % (name, k_)] = val
-    if route == 'config':
+    if route in ('config', 'config-nested'):
         return f(x.copy(), **cfg), cfg
     return cfg.get_func()(x.copy()), cfg
 
 
 def effective_opts(o, cfg):
-    """What the stage functions must see: supplied options (kwargs route) or the full config (config routes)."""
+    """What the stage functions must see: supplied options (kwargs route) or the full config (config routes).
+    For the config routes the supplied options must also really be IN the config."""
     io, eo, xo = o
     if cfg is None:
         return dict(io or {}), dict(eo or {}), dict(xo or {})
-    return dict(cfg['imf_opts']), dict(cfg['envelope_opts']), dict(cfg['extrema_opts'])
+    out = (dict(cfg['imf_opts']), dict(cfg['envelope_opts']), dict(cfg['extrema_opts']))
+    for have, want in zip(out, (io, eo, xo)):
+        for k_, val in (want or {}).items():
+            if norm(have.get(k_)) != norm(val):
+                raise LostOption('%s=%r was written to the configuration but it holds %r' % (k_, val, have.get(k_)))
+    return out
+
+
+class LostOption(Exception):
+    pass
 
 
 def check_case(case):
@@ -300,7 +322,7 @@ def check_case(case):
     import emd.sift as S
     v, si, oi, route, sched, seed = case
     x = signals.fb_signal(SIGNALS[si], seed)
-    o = OPTSETS[oi]
+    o = copy.deepcopy(OPTSETS[oi])
     tag = '%s signal=%d options=%r route=%s schedule=%r' % (v, si, o, route, sched)
     viols = []
     pristine_default(si, seed)
@@ -325,7 +347,12 @@ def check_case(case):
             in_workers += len(e['trace'])
     cfg = aux if not v.startswith('second') else None
     vbase = v.split(':')[0]
-    io, eo, xo = effective_opts(o, cfg)
+    if not norm(o) == norm(OPTSETS[oi]):
+        viols.append(('%s:options-modified' % v, '%s: the option dictionaries handed to the call were changed' % tag))
+    try:
+        io, eo, xo = effective_opts(o, cfg)
+    except LostOption as e:
+        return Outcome(cls='%s:%s' % (v, 'serial'), viols=viols + [('%s:config-lost-option' % v, '%s: %s' % (tag, e))])
     # ---- oracle 1: call tree
     counts = {'get_next_imf': 0, 'interp_envelope': 0, 'get_padded_extrema': 0}
     for r in recs:
